@@ -443,6 +443,75 @@ class AllocCheck:
         return self.run(prop, "quick", 0)
 
 
+class GeometryCheck:
+    """C20: one generated static_assert program per architecture (compile error = violation) + a tiny run-time part."""
+
+    def build(self, *a):
+        return None
+
+    def run(self, prop, tier, seed):
+        t0 = time.time()
+        run, skipped = vlib.runnable_archs()
+        allarchs = [a[0] for a in vlib.ARCHS + vlib.ARCHS_COMPILE_ONLY]
+        gen_dir = os.path.join(vlib.BUILD, "gen")
+        os.makedirs(gen_dir, exist_ok=True)
+        results = {}
+
+        def one(arch):
+            name, tag, flags, _ = vlib.ARCH_BY_NAME[arch]
+            src = os.path.join(gen_dir, "geometry.%s.cpp" % arch)
+            text = subprocess.run([sys.executable, os.path.join(vlib.VERIF, "gen", "gen_geometry.py"), arch, tag], stdout=subprocess.PIPE, text=True).stdout
+            vlib.write_if_changed(src, text)
+            nassert = text.count("static_assert(")
+            target = os.path.join(vlib.OBJ, "geometry.%s" % arch)
+            argv = [vlib.CXX, "-std=c++17", "-O0", "-I" + os.path.join(vlib.REPO, "include")] + flags.split() + [src]
+            ok, log = vlib.build_object(target, argv, [src])
+            fails = []
+            if not ok:
+                for l in log.splitlines():
+                    if "static assertion failed" in l or ("error:" in l and "static assertion" not in l):
+                        fails.append(l.strip()[-300:])
+                if not fails:
+                    fails = [log[-600:]]
+                return arch, nassert, fails, None
+            runmsg = None
+            if arch in run:
+                p = subprocess.run([target], stdout=subprocess.PIPE, stderr=subprocess.STDOUT, text=True)
+                if p.returncode != 0 or not p.stdout.startswith("ok"):
+                    runmsg = (p.stdout or "")[-300:] + " (exit status %d)" % p.returncode
+            return arch, nassert, fails, runmsg
+
+        from concurrent.futures import ThreadPoolExecutor
+        with ThreadPoolExecutor(max_workers=vlib.NPROC) as ex:
+            for arch, nassert, fails, runmsg in ex.map(one, allarchs):
+                results[arch] = (nassert, fails, runmsg)
+        viol = []
+        states = 0
+        for arch, (nassert, fails, runmsg) in results.items():
+            states += nassert + (1 if arch in run else 0)
+            seen = set()
+            for f in fails:
+                if f in seen:
+                    continue
+                seen.add(f)
+                viol.append({"property": prop, "op": "static_assert", "type": "geometry", "arch": arch, "note": f, "finding": "", "in": [], "program": "build/gen/geometry.%s.cpp" % arch})
+            if runmsg:
+                viol.append({"property": prop, "op": "aligned_load_at_alignment", "type": "float", "arch": arch, "note": runmsg, "finding": "", "in": [], "program": "build/gen/geometry.%s.cpp" % arch})
+        res = {"states": states, "transitions": states, "distinct_nontrivial": states, "exhaustive": True, "violations": viol, "violations_unknown": len(viol), "violations_total": len(viol),
+               "by_key": {"%s|%s|%s|" % (v["op"], v["type"], v["arch"]): 1 for v in viol}, "by_finding": {}, "architectures": allarchs, "wall_s": time.time() - t0,
+               "samples": [{"program": "build/gen/geometry.avx2.cpp", "example_obligation": "static_assert(xsimd::batch<int16_t, A>::size * sizeof(int16_t) == 32)"},
+                           {"program": "build/gen/geometry.avx512pf.cpp", "note": "compile-only architecture (not executable on this host)"}],
+               "notes": ["%s: %d static assertions%s" % (a, r[0], ", run-time aligned load at alignment() executed" if a in run else ", compile-only") for a, r in sorted(results.items())],
+               "per_arch_points": {a: r[0] for a, r in results.items()}}
+        rule = ("one generated program per architecture (25: the 22 executable ones plus fma4, avx512er, avx512pf compile-only), each a list of static_asserts over every (architecture, element type, lane count) triple; "
+                "an assertion that does not hold is a compile error naming the triple; states = transitions = obligations compiled (+ one executed aligned load per runnable architecture)")
+        bound = "21 element types (8 fixed-width integers, char/short/int/long/long long twins, float, double) + complex<float/double> + bool x 25 architectures; make_sized_batch<T,N> for 6 types x N in 1..128; list order against a parent table written from the ISA manuals; exhaustive"
+        return _finish(prop, tier, seed, res, skipped, rule, bound, ["the compiler evaluates static_assert correctly"], {"programs": len(allarchs)}, replay_kind="geometry")
+
+    def replay(self, prop, path):
+        return self.run(prop, "quick", 0)
+
+
 RULE_MATH = ("every point of the stated argument space is evaluated twice, once among neighbouring arguments and once in a strided order where "
              "the lanes of one batch come from 16 distant parts of the space, by every architecture's real kernel; each lane result is judged "
              "against the exact value (ulp bound inside the normal range, graceful-degradation predicate outside); states = arguments x orders; "
@@ -495,6 +564,7 @@ CHECKS = {
         "thorough": "all 2^32 float32 arguments of every unary function and the C11 thorough lattice"}, extra_args=["--ticks"]),
     "C15": CpuidCheck(),
     "C18": AllocCheck(),
+    "C20": GeometryCheck(),
     "C17": Elementwise(["scalar"], RULE_EW + "; the scalar overloads are run one element per call and judged by the same reference models as the batch lanes (so scalar == batch wherever the model is single-valued); NaN operands are outside the property", {
         "quick": "the C01/C02/C03/C06/C07/C08 operand spaces (8-bit pairs exhaustive, ALL16 x L16, lattices^2, every shift/rotate count, fp lattices, rounding windows) for add, sub, mul, div, mod, neg, abs, min, max, sadd, ssub, avg, avgr, incr/decr(_if), bitwise operators, shifts, rotates, comparisons, select, is_flint/is_even/is_odd, fma family, nearbyint_as_int, bitwise_cast, clip, pow with 21 integer exponents (scalar and batch forms against the shared square-and-multiply model); all 22 architectures' compile flags",
         "thorough": "as quick with the thorough spaces of the underlying properties"}),
